@@ -4,6 +4,18 @@ computing rank, every index) between the real array/map/set/disjoint_set code un
 and YgmVerif.Part run by the Lean driver; direct oracle = the property's own clauses."""
 from lib import common as C
 
+META = {
+    "claimed": True,
+    "technique": "Lean 4 proof (div/mod arithmetic, all lengths and rank counts) + exhaustive table correspondence with the real array/hash-partitioner code",
+    "text": "Theorems owner_spec/owner_unique/start_succ/start_ranks/sizes_differ_le_one/indicesOf_* over YgmVerif.Part prove, for every length and every "
+            "positive rank count, that the block arithmetic of array.ipp yields exactly one in-range owner per index and contiguous, disjoint, covering, "
+            "balanced blocks (no division by zero). The model is tied to the code by an exhaustive comparison (every rank, every index) over a box of "
+            "lengths x communicator sizes run on the real headers under simmpi, plus hash owners of generated keys through map/set.",
+    "note": "Trusted: Lean kernel + propext/Classical.choice/Quot.sound; the hand-written model Part.lean is tied to array.ipp only on the enumerated box "
+            "(quick 0..40 x 1..8, thorough 0..200 x 1..16); std::hash is a parameter; 'stored only on owner' is composed from C01 (delivery to dest) and "
+            "is exercised, not proved, here.",
+}
+
 RULE = ("exhaustive: for every communicator size R and every array length L in the tier's box, every rank "
         "evaluates owner(i)/is_mine(i) for all i and lists its for_all indices; a case = (R, L); non-trivial = "
         "L > 0; hash owners: generated int64/string keys through map/set/disjoint_set on every rank")
